@@ -224,7 +224,7 @@ func cmdCheck(args []string) int {
 			hsum := sha1.Sum([]byte(c))
 			file := filepath.Join(replayDir, fmt.Sprintf("%s-%s-%x.json", id, r.h.Entry, hsum[:5]))
 			rep := map[string]interface{}{"property": id, "harness": r.h.Pkg + "." + r.h.Entry, "class": c, "label": v.Label, "inputs": v.Inputs,
-				"bounds": r.ts.Bounds, "schedule": v.Sched, "decisions": decStrings(v.Trace), "path_condition": v.PC, "where": v.Msg, "P": r.ts.P, "T": r.ts.T}
+				"bounds": r.ts.Bounds, "schedule": v.Sched, "decisions": decStrings(v.Trace), "path_condition": v.PC, "where": v.Msg, "observations": v.Obs, "P": r.ts.P, "T": r.ts.T}
 			native := "not-attempted"
 			if r.h.Native && !*noNative {
 				_, bad := nativeRun(r.h, []map[string]interface{}{v.Inputs}, r.ts.Bounds, true)
